@@ -2,20 +2,19 @@
    Statements only.  Proofs: Proofs/C07_walker*.v, C07_valid.v, C07_errh.v, C07_zone.v, C07_first_ev.v, C07_text.v,
    C07_driver.v, C07_driver_maps.v; C04_reader.v, C01_raw.v.
 
-   PARTIAL, in two respects.
-   (1) The theorems are about the driver with all sinks off (run_document_gen = x12n_document(param, src, None, None,
-       None); Proofs/Pipeline_off.v shows the whole-pipeline model coincides with it there).  Totality of the HTML / XML /
-       acknowledgement sinks is NOT proved: the check runs the implementation on generated and arbitrary texts under all
-       8 sink subsets and compares it with the whole-pipeline model.
-   (2) Premise plain_delims: the segment terminator and the element separator of the header are not among the letters
-       I, S, A and differ.  Without it the statement is FALSE: C07_letter_terminator_raises (a recorded finding).
-   The context reader's totality is not a theorem either (checked on the implementation). *)
+   PARTIAL, in one respect.
+   Premise plain_delims: the segment terminator and the element separator of the header are not among the letters
+   I, S, A and differ.  Without it the statement is FALSE: C07_letter_terminator_raises (a recorded finding).
+   The sinks are covered: C07_pipeline_total is about run_pipeline_gen = x12n_document with ANY subset of the
+   acknowledgement / HTML / XML sinks, on every environment whose maps additionally satisfy the computable predicate
+   sinks_ok (Spec/C07_sinks_spec.v), and C07_shipped_sinks_ok shows the shipped maps do.
+   The context reader's totality is not a theorem (checked on the implementation against the CtxReader model). *)
 From Coq Require Import String.
 From PX.Lib Require Import Base PyStr Xml.
 From PX.Gen.Maps Require M_maps.
 From PX.Model Require Import Path Segment Raw Reader MapLoad MapTree Walker Element Driver Pipeline.
-From PX.Spec Require Import C01_spec C07_walker_wf C07_valid_wf C07_spec.
-From PX.Proofs Require Import C04_reader C07_walker C07_valid C07_text C07_driver C07_driver_maps Pipeline_off.
+From PX.Spec Require Import C01_spec C07_walker_wf C07_valid_wf C07_spec C07_sinks_spec.
+From PX.Proofs Require Import C04_reader C07_walker C07_valid C07_text C07_driver C07_driver_maps Pipeline_off C07_pipeline C07_pipeline_maps.
 
 (* The reader's envelope bookkeeping raises nothing but the documented X12Error, whatever the segments. *)
 Theorem C07_reader_steps_total :
@@ -79,3 +78,18 @@ Theorem C07_pipeline_off_is_driver :
        o_trace := fst (run_document_gen load idx text); o_html_calls := [] |}.
 Proof. exact pipeline_off_is_driver. Qed.
 Print Assumptions C07_pipeline_off_is_driver.
+
+(* THE THEOREM WITH SINKS: for every subset sk of the acknowledgement / HTML / XML sinks, every environment whose
+   maps satisfy map_ok and sinks_ok, and EVERY text with plain delimiters, the whole pipeline returns a verdict or
+   raises X12Error / EngineError. *)
+Theorem C07_pipeline_total :
+  forall load idx clk htime dtd sk text,
+    env_ok_sinks load idx -> plain_delims text = true ->
+    match o_result (run_pipeline_gen load idx clk htime dtd sk text) with
+    | Ok _ => True | Raise e => allowed e = true end.
+Proof. exact pipeline_total. Qed.
+Print Assumptions C07_pipeline_total.
+
+Theorem C07_shipped_sinks_ok : env_ok_sinks shipped_load shipped_idx.
+Proof. exact shipped_env_ok_sinks. Qed.
+Print Assumptions C07_shipped_sinks_ok.
